@@ -1252,6 +1252,17 @@ theorem foldl_body (o : Opts) (H : List Str) (hH : H ≠ []) (body : List GLine)
       rw [stepLine_row o _ fs hrow, ih _ hr1 hr2, fileRows_cons_row]
       simp
 
+theorem mem_takeWhile_p {α : Type} (p : α → Bool) (l : List α) (x : α) (h : x ∈ l.takeWhile p) : p x = true := by
+  induction l with
+  | nil => simp at h
+  | cons a r ih =>
+    simp only [List.takeWhile_cons] at h
+    split at h
+    · rcases List.mem_cons.mp h with h1 | h1
+      · rw [h1]; assumption
+      · exact ih h1
+    · cases h
+
 theorem fileOk_spec (o : Opts) (hdr0 : List Str) (f : List GLine) (h : fileOk o hdr0 f = true) :
     (∀ l ∈ f, l.ok o = true) ∧
     ((hdr0 ≠ [] ∧ ∀ l ∈ f, l.isHeader = false) ∨
@@ -1280,7 +1291,7 @@ theorem fileOk_spec (o : Opts) (hdr0 : List Str) (f : List GLine) (h : fileOk o 
       | header names trail =>
         refine ⟨_, names, trail, rest, hsplit.symm, ?_, ?_⟩
         · intro l hl
-          exact List.mem_takeWhile_imp hl
+          exact mem_takeWhile_p _ _ _ hl
         · simpa [List.all_eq_true] using h2
       | comment _ => simp at h2
       | blank _ => simp at h2
